@@ -244,9 +244,7 @@ def elemHex (w : Nat) (x : Str) : R Str :=
   | .ok _ => .error .other
   | .error e => .error e
 
-def multi (w : Nat) (value : Str) : R (List Str) :=
-  if !(value.contains ',') then .error .valueType
-  else ((splitOn ',' value).filter (· != [])).mapM (elemHex w)
+
 
 /-- `Value.create_from_str(value, instruction, default_mode_extended)`; the instruction enters only through
 `is_string_define` and `is_16_bit`. fuel bounds the depth-2 recursion through ExpressionValue. -/
@@ -296,6 +294,25 @@ def create : Nat → Str → (isStr is16 defExt : Bool) → R Value
               else .error .valueType
 
 def createV (value : Str) (isStr is16 : Bool) (defExt : Bool := true) : R Value := create 4 value isStr is16 defExt
+
+/-- `MultiByteValue.create_element`: a literal is rendered at once; a symbol or a two-term expression is kept for later
+(`pendingElem`) and holds its place with zeros; anything else is the literal's error -/
+def pendingElem (x : Str) : Bool :=
+  match create 4 x false false true with
+  | .ok v => v.isSymbol || v.isExpression
+  | .error _ => false
+
+def elemHexP (w : Nat) (x : Str) : R Str :=
+  match elemHex w x with
+  | .ok h => .ok h
+  | .error e => if pendingElem x then .ok (List.replicate w '0') else .error e
+
+/-- the elements of a list operand, as written -/
+def listElems (value : Str) : List Str := (splitOn ',' value).filter (· != [])
+
+def multi (w : Nat) (value : Str) : R (List Str) :=
+  if !(value.contains ',') then .error .valueType
+  else (listElems value).mapM (elemHexP w)
 
 /-! ### symbol resolution -/
 
